@@ -24,6 +24,11 @@ def windowCodes (D : Nat) (lo hi : Int) : List Nat :=
 def levelsDown (lo hi : Nat) : List Nat := ((List.range (hi + 1)).filter (lo ≤ ·)).reverse
 def levelsUp (lo hi : Nat) : List Nat := (List.range (hi + 1)).filter (lo ≤ ·)
 
+/-- `GenerateAboveTreeConfiguration`: the configuration the top tree (and the kernel it builds itself) works with:
+    (tree height, box width in units of the real box, twice the offset of its centre from the real corner) -/
+def topTreeConfig (n : Int) : Nat × Nat × Nat :=
+  ((n + 5).toNat, if n < 0 then 4 else 8 * 2 ^ n.toNat, 2)
+
 /-- `TbfAlgorithmPeriodicTopTree::execute` for `n = nbLevelsAbove0 ≥ 0` (nothing happens for `n = -1`) -/
 def topTreeCalls (D : Nat) (n : Int) (level1 : List Nat) : List TopCall :=
   if n < 0 then [] else
